@@ -3,6 +3,8 @@ import BioscrapeModel.Model.Num
 import BioscrapeModel.Model.Term
 import BioscrapeModel.Model.Propensity
 import BioscrapeModel.Model.Network
+import BioscrapeModel.Model.Random
+import BioscrapeModel.Model.DelayQueue
 
 /-
 Line protocol codec (DESIGN §1.2).  A `Float` travels as the natural number of
@@ -182,5 +184,29 @@ def decRxnDef (j : Json) : Except String RxnDef := do
 
 def encIntCols (cols : List (List Int)) : Json :=
   Json.arr (cols.map (fun c => Json.arr (c.map (fun (v : Int) => Json.num (JsonNumber.fromInt v))).toArray)).toArray
+
+/-- the uniform source of a driver job: the concrete twister for `Float`; `Rat` jobs carry an
+explicit list of uniforms (exact), consumed in order. -/
+class Uniform (α : Type) where
+  σ : Type
+  init : Json → Except String σ
+  gen : Gen σ α
+
+instance : Uniform Float where
+  σ := MT
+  init j := do
+    let seed := (getNatField j "seed").toOption.getD 1
+    return MT.seed seed.toUInt64
+  gen := MT.uniform
+
+instance : Uniform Rat where
+  σ := List Rat
+  init j := do
+    match j.getObjVal? "uniforms" with
+    | .ok _ => getNumList (α := Rat) j "uniforms"
+    | .error _ => return []
+  gen := fun l => match l with
+    | [] => (1, [])
+    | u :: rest => (u, rest)
 
 end Driver
